@@ -5,6 +5,7 @@ go 1.25.0
 require (
 	github.com/blevesearch/bleve/v2 v2.0.0
 	github.com/blevesearch/bleve_index_api v1.4.0
+	go.etcd.io/bbolt v1.4.0
 )
 
 require (
@@ -32,7 +33,6 @@ require (
 	github.com/golang/snappy v1.0.0 // indirect
 	github.com/json-iterator/go v0.0.0-20171115153421-f7279a603ede // indirect
 	github.com/mschoch/smat v0.2.0 // indirect
-	go.etcd.io/bbolt v1.4.0 // indirect
 	golang.org/x/sys v0.45.0 // indirect
 	google.golang.org/protobuf v1.36.6 // indirect
 )
